@@ -270,10 +270,10 @@ def events_of(v):
 
 def gen_boundary_lines(rng, tier):
     """strings (ASCII and two-byte characters), member names, byte strings, arrays and objects whose length / count sits on either side
-    of every width boundary of every format, at one random place inside the 16-bit window and at two places above 65536; pushed as
+    of every width boundary of every format, at one random place inside the 16-bit window and at one above 65536; pushed as
     events into each encoder and, for a share, handed over as a value (encode_X). Objects with tens of thousands of members cost the
     reference decoders (and ojson) quadratic time: their counts stop at 256 in the quick tier."""
-    big = list(BOUNDARY_BIG) + [rng.randint(32769, 65534), 70000, rng.randint(65537, 99999)]
+    big = list(BOUNDARY_BIG) + [rng.randint(32769, 65534), rng.randint(65537, 99999)]
     ls = []
     for fmt in FMTS:
         opts = "p0" if fmt == "cbor" else "-"
@@ -436,9 +436,14 @@ def bignum_text_oracle(line, impl, model, ref=None):
     if lit is None:
         return None
     parts = [p.strip() for p in impl.split("|")]
-    if len(parts) >= 2 and parts[1].startswith("err") and not -2 ** 31 <= lit[1] <= 2 ** 31 - 1:
-        return None                  # jsoncons' own decoder takes exponents of int32 range only (read_decimal_fraction / read_bigfloat refuse the rest):
-        #                              what was written is judged by the reference decoder alone
+    if len(parts) >= 2 and parts[1].startswith("err"):
+        # jsoncons' own decoder takes exponents of int32 range only (read_decimal_fraction / read_bigfloat refuse the rest), and for tag 4
+        # not the last few below INT_MAX either (exponent + number of characters of the mantissa must stay in int; INT_MIN is refused: D84).
+        # An implementation limit reported through the error channel; what was written is judged by the reference decoder alone
+        if not -2 ** 31 <= lit[1] <= 2 ** 31 - 1:
+            return None
+        if tag == "bigdec" and (lit[1] > 2 ** 31 - 1 - len(str(lit[0])) or lit[1] == -2 ** 31):
+            return None
     if len(parts) < 2 or not parts[1].startswith("ok "):
         return "the encoder's output does not decode: " + impl[-120:]
     have = wire.parse_all(parts[1][3:])[0]
